@@ -1144,3 +1144,43 @@ func returnsOf(fn *ssa.Function) []*ssa.Return {
 	})
 	return out
 }
+
+// onceGuardHeads: the blocks entered when an atomic once-guard says "somebody else has already been here": the false
+// edge of flag.CompareAndSwap(false, true) and the true edge of flag.Swap(true) on an atomic.Bool. A return behind such
+// a head belongs to a second call; the first one went on.
+func onceGuardHeads(fn *ssa.Function) []*ssa.BasicBlock {
+	var out []*ssa.BasicBlock
+	isTrue := func(v ssa.Value, want string) bool {
+		k, ok := v.(*ssa.Const)
+		return ok && k.Value != nil && k.Value.String() == want
+	}
+	allInstrs(fn, func(ins ssa.Instruction) {
+		ifs, ok := ins.(*ssa.If)
+		if !ok {
+			return
+		}
+		cond, neg := ifs.Cond, false
+		if u, isU := cond.(*ssa.UnOp); isU && u.Op == token.NOT {
+			cond, neg = u.X, true
+		}
+		c, isC := cond.(*ssa.Call)
+		if !isC {
+			return
+		}
+		already := -1 // successor index taken when the flag was already set
+		switch {
+		case isAtomicBoolMethod(&c.Call, "CompareAndSwap") && len(c.Call.Args) == 3 && isTrue(c.Call.Args[1], "false") && isTrue(c.Call.Args[2], "true"):
+			already = 1
+		case isAtomicBoolMethod(&c.Call, "Swap") && len(c.Call.Args) == 2 && isTrue(c.Call.Args[1], "true"):
+			already = 0
+		}
+		if already < 0 {
+			return
+		}
+		if neg {
+			already = 1 - already
+		}
+		out = append(out, ifs.Block().Succs[already])
+	})
+	return out
+}
